@@ -473,6 +473,11 @@ namespace chaiscript {
     /// \returns All values in the local thread state, added through the add() function
     std::map<std::string, Boxed_Value> get_locals() const { return m_engine.get_locals(); }
 
+#ifdef CHAISCRIPT_VERIF
+    /// \returns the shape (sizes only) of the calling thread's scope, call-frame, call-parameter and conversion-save stacks
+    chaiscript::verif::Stack_Shape verif_stack_shape() const { return m_engine.verif_stack_shape(); }
+#endif
+
     /// \brief Sets all of the locals for the current thread state.
     ///
     /// \param[in] t_locals The map<name, value> set of variables to replace the current state with
